@@ -238,6 +238,47 @@ func bCheckReads(t *testing.T, what string, ss *segmentStack, ref map[string][]b
 			}
 		}
 	}
+	// two consecutive seeks on a range iterator: the start bound must survive a restart
+	for _, start := range []string{"nil", "a", "b"} {
+		for _, t1 := range []string{"", "a", "b", "c"} {
+			for _, t2 := range []string{"", "a", "b"} {
+				var startKey []byte
+				if start != "nil" {
+					startKey = []byte(start)
+				}
+				it, err := ss.StartIterator(startKey, nil, IteratorOptions{})
+				if err != nil {
+					return fail("StartIterator: %v", err)
+				}
+				lower := start
+				if start == "nil" {
+					// exhaust first, so that both seeks go backwards (restart the iterator)
+					for it.Next() == nil {
+					}
+					lower = ""
+				}
+				if err = it.SeekTo([]byte(t1)); err != nil && err != ErrIteratorDone {
+					it.Close()
+					return fail("SeekTo(%q) on [%q,nil): %v", t1, lower, err)
+				}
+				err = it.SeekTo([]byte(t2))
+				from := t2
+				if from < lower {
+					from = lower
+				}
+				want := bExpectRange(ref, []byte(from), nil)
+				if err != nil && err != ErrIteratorDone {
+					it.Close()
+					return fail("SeekTo(%q) after SeekTo(%q) on [%q,nil): %v", t2, t1, start, err)
+				}
+				got, derr := bDrain(it, false)
+				it.Close()
+				if derr != nil || !bSame(got, want) {
+					return fail("[%q,nil): SeekTo(%q) then SeekTo(%q): %v (%v); reference %v", start, t1, t2, got, derr, want)
+				}
+			}
+		}
+	}
 	return true
 }
 
